@@ -267,7 +267,7 @@ pub fn salts(ctx: &Ctx, rep: &mut Report) {
         }
         vh::set_sign_rng(None);
     }
-    rep.require("generator_window_pairs", 20);
+    rep.require("generator_window_pairs", 10);
     // the retry paths of sign (compression failure forced by the failpoint, real randomness):
     // a salt that is re-drawn, cleared or reused when signing restarts shows up here
     let (keys3, _) = pool::keys::<F512>(ctx.seed, "c08", 2);
